@@ -393,10 +393,13 @@ package sqlittle
 
 // ---------------------------------------------------------------------------------------
 // WITHOUT ROWID variants: the index entry's primary-key fields are copied into a key (setKey) and the
-// row is looked up in the table's own index tree. The parents are verified (locking, error
-// reporting, closure creation); the per-entry closures write the caller-owned key slice, which the
-// component-granular frame of the callback protocol cannot express, so their bodies are not verified
-// (listed as trusted in the evidence).
+// row is looked up in the table's own index tree. Parents and per-entry closures are verified
+// (locking, closure creation, no panic, scan protocol, every failure of the nested lookup recorded in
+// cbErr and reported). The per-entry closures write the caller-owned key slice pk, which the
+// component-granular frame of the callback protocol (RecordCB excludes KeyCol) cannot express: that pk
+// shares no memory with the enclosing scan's key is a listed assumption (`frame-seam`). That the row
+// handed to the user is the table row stored under exactly that key is not stated (it would need the
+// nested scan's position ghosts exported through every walker protocol).
 //@ func sqlittle.indexedSelectNonRowid
 //@   ghost-entry scan_ok = true
 //@   ensures-before-exit [scanerr] !scan_ok ==> r0 != nil
@@ -431,9 +434,11 @@ package sqlittle
 //@   ghost-exit scan_ok = old(scan_ok)
 //@   ghost-exit halt = halt || done
 
-// the nested primary-key lookup keeps the first entry equal to the key and stops
+// the nested primary-key lookup keeps the first entry equal to the key and stops; the result cell is
+// empty when the lookup starts, so "nothing found" cannot be masked by an earlier entry's row
 //@ func sqlittle.indexedSelectNonRowid$1$1
 //@   implements functype db.RecordCB
+//@   creation-requires [clean] found == nil
 //@   ensures [stops] done
 //@   ensures [kept] found == cbrec
 //@   ghost-exit halt = true
@@ -473,9 +478,11 @@ package sqlittle
 //@   ghost-exit scan_ok = old(scan_ok)
 //@   ghost-exit halt = halt || done
 
-// the nested primary-key lookup keeps the first entry equal to the key and stops
+// the nested primary-key lookup keeps the first entry equal to the key and stops; the result cell is
+// empty when the lookup starts, so "nothing found" cannot be masked by an earlier entry's row
 //@ func sqlittle.indexedSelectEqNonRowid$1$1
 //@   implements functype db.RecordCB
+//@   creation-requires [clean] found == nil
 //@   ensures [stops] done
 //@   ensures [kept] found == cbrec
 //@   ghost-exit halt = true
